@@ -432,6 +432,11 @@ def cases_lag(tier):
                         fam = FAMS_BARE[0] if d == 'b3' else FAMS_WIRE[0]
                         out.append(dict(design=d, ducts=du, fam=list(fam), re=re, power='asym',
                                         wall='none', structure=st, coolant='sodium', tol=tol, L=0.3, dT=250.0))
+    # low power (0.2 K over the core): a rise of a few millikelvin per step - the lag is still one step long, so it still halves
+    for d in designs[:2]:
+        for du in ducts[:2]:
+            out.append(dict(design=d, ducts=du, fam=list(FAMS_WIRE[0]), re='turb', power='asym',
+                            wall='none', structure='bundle', coolant='sodium', tol=0.0, L=0.3, dT=0.2))
     return out
 
 
